@@ -337,7 +337,7 @@ func (g *gen) intDir(arg *val) piece {
 		ps[2], p.args = s, append(p.args, a...)
 	}
 	if g.r.Chance(35) {
-		s, a := g.numParam([]int{1, 2, 3, 4, 5, 7}, false)
+		s, a := g.numParam([]int{1, 2, 3, 4, 5, 7}, true)
 		ps[3], p.args = s, append(p.args, a...)
 	}
 	m := mods(g.r)
@@ -368,7 +368,19 @@ func (g *gen) intDir(arg *val) piece {
 	} else {
 		p.args = append(p.args, g.value())
 	}
+	if arg == nil && strings.Contains(prm, "#") {
+		p.args = append(p.args, g.surplus()...)
+	}
 	return p
+}
+
+// arguments nobody takes: they make the value of a # parameter differ from case to case
+func (g *gen) surplus() []val {
+	var out []val
+	for n := g.r.Intn(4); n > 0; n-- {
+		out = append(out, vInt(int64(g.r.Intn(50))))
+	}
+	return out
 }
 
 // ~R ~:R ~@R ~:@R without parameters
@@ -429,11 +441,11 @@ func (g *gen) asDir(arg *val) piece {
 		ps[0], p.args = s, append(p.args, a...)
 	}
 	if g.r.Chance(20) {
-		s, a := g.numParam([]int{1, 2, 3, 5}, false)
+		s, a := g.numParam([]int{1, 2, 3, 5}, true)
 		ps[1], p.args = s, append(p.args, a...)
 	}
 	if g.r.Chance(20) {
-		s, a := g.numParam([]int{0, 1, 2, 4}, false)
+		s, a := g.numParam([]int{0, 1, 2, 4}, true)
 		ps[2], p.args = s, append(p.args, a...)
 	}
 	if g.r.Chance(25) {
@@ -447,6 +459,9 @@ func (g *gen) asDir(arg *val) piece {
 		p.args = append(p.args, *arg)
 	} else {
 		p.args = append(p.args, g.value())
+		if strings.Contains(p.ctl, "#") {
+			p.args = append(p.args, g.surplus()...)
+		}
 	}
 	return p
 }
@@ -490,11 +505,11 @@ func (g *gen) tabDir() piece {
 	var p piece
 	ps := make([]string, 2)
 	if g.r.Chance(70) {
-		s, a := g.numParam([]int{0, 1, 2, 4, 6, 10, 14}, false)
+		s, a := g.numParam([]int{0, 1, 2, 4, 6, 10, 14}, true)
 		ps[0], p.args = s, a
 	}
 	if g.r.Chance(50) {
-		s, a := g.numParam([]int{1, 1, 2, 3, 4, 8, 0}, false)
+		s, a := g.numParam([]int{1, 1, 2, 3, 4, 8, 0}, true)
 		ps[1], p.args = s, append(p.args, a...)
 	}
 	m := common.Pick(g.r, []string{"", "", "@"})
@@ -571,6 +586,27 @@ func (g *gen) moveDir(depth int) piece {
 	g.ctx.Hist("dir:*")
 	a, b, c := g.atom(), g.atom(), g.atom()
 	pr := func() string { return common.Pick(g.r, []string{"~A", "~S", "~A"}) }
+	if g.r.Chance(30) {
+		// the same integer looked at twice (a directive must leave its argument as it found it)
+		z := vBig(g.integer())
+		if g.r.Chance(50) {
+			z = vBig(new(big.Int).Neg(new(big.Int).Lsh(big.NewInt(1), uint(63+g.r.Intn(40)))))
+		}
+		d1, d2 := g.intDir(&z), g.intDir(&z)
+		for len(d1.args) != 1 || len(d2.args) != 1 {
+			d1, d2 = g.intDir(&z), g.intDir(&z)
+		}
+		switch g.r.Intn(4) {
+		case 0:
+			return piece{d1.ctl + "~:*|" + d2.ctl, []val{z}}
+		case 1:
+			return piece{d1.ctl + "~0@*|" + d2.ctl + "~:*|~A", []val{z}}
+		case 2:
+			return piece{"~{" + d1.ctl + "~:*=" + d2.ctl + " ~}", []val{vList(z, vBig(new(big.Int).Neg(z.z)))}}
+		default:
+			return piece{"~@{" + d1.ctl + "~:*/" + d2.ctl + "~:*/~S ~}", []val{z}}
+		}
+	}
 	switch g.r.Intn(7) {
 	case 0: // skip one
 		return piece{pr() + "~*" + pr(), []val{a, b, c}}
@@ -870,6 +906,27 @@ func evalString(src string) observed {
 	return observed{err: "not-a-string", msg: o.Printed}
 }
 
+// evalList evaluates src, which must return a list of strings
+func evalList(src string) []string {
+	o := common.EvalTimeout(slip.NewScope(), src, 3*time.Second)
+	if o.Err != "" {
+		return nil
+	}
+	l, ok := o.Value.(slip.List)
+	if !ok {
+		return nil
+	}
+	var out []string
+	for _, e := range l {
+		s, ok := e.(slip.String)
+		if !ok {
+			return nil
+		}
+		out = append(out, string(s))
+	}
+	return out
+}
+
 func show(o observed) string {
 	if o.err != "" {
 		return "!" + o.err
@@ -1001,6 +1058,24 @@ func Run(ctx *common.Ctx) {
 		if o.err == "timeout" {
 			ot, os = o, o
 		}
+		// the arguments are as they were: bound to variables, formatted, printed before and after
+		if len(p.args) > 0 && o.err != "timeout" {
+			var binds, names []string
+			for i, a := range p.args {
+				binds = append(binds, fmt.Sprintf("(a%d %s)", i, a.lisp()))
+				names = append(names, fmt.Sprintf("a%d", i))
+			}
+			ns := strings.Join(names, " ")
+			chk := evalList(fmt.Sprintf(`(let* (%s (before (prin1-to-string (list %s)))) (ignore-errors (format nil "%s" %s)) (list before (prin1-to-string (list %s))))`,
+				strings.Join(binds, " "), ns, p.ctl, ns, ns))
+			if len(chk) == 2 && chk[0] != chk[1] {
+				ctx.Violate("format changed one of its arguments", src, chk[1], chk[0])
+			} else if len(chk) != 2 {
+				ctx.Hist("argument-check:not-evaluated")
+			} else {
+				ctx.Hist("argument-check:done")
+			}
+		}
 		if !same(o, ot) {
 			ctx.Violate("(format t ...) writes a text different from the string (format nil ...) returns", src, show(ot), show(o))
 		}
@@ -1037,6 +1112,10 @@ func Run(ctx *common.Ctx) {
 	for _, p := range tableSweep(tables) {
 		add("table-sweep", p)
 	}
+	// 2b. every order of literal, v and # among the numeric parameters of one directive, with 0..2 arguments nobody takes
+	for _, p := range paramOrderSweep() {
+		add("parameter-order", p)
+	}
 	// 3. integer directives
 	for i := 0; i < nInt; i++ {
 		p := g.intDir(nil)
@@ -1062,7 +1141,7 @@ func Run(ctx *common.Ctx) {
 	// 7. ~A = princ, ~S = prin1 on the implementation alone, for a wider universe of objects
 	printerAgreement(ctx, g, nPrint)
 
-	ctx.Meta.Rule = "control strings: (1) a fixed corpus of rare shapes; (2) one ~R / ~:R / ~@R / ~:@R per entry of the word tables; (3) ~D ~B ~O ~X ~nR with random subsets of mincol, padchar, commachar, comma-interval given literally, by v or by #, all modifier combinations, integers of 1..40 digits incl. 0, powers of ten and two +-1 and the fixnum limits, a few non-integers; (4) ~R words for numbers up to 10^69 with zero and round groups, Roman 1..3999 and the limits; (5) ~A ~S with mincol, colinc, minpad, padchar; (6) sequences of 1..4 directives (all of ~A ~S ~D ~B ~O ~X ~R ~C ~% ~& ~~ ~T ~* ~P ~( ~[ ~{ ~? ~^, blocks nested to depth 2, lists of 0..4 elements, nested lists for ~:{, missing and surplus arguments) with literal text between; every control string is run with destination nil, t and a string stream; distinct = distinct (control, arguments)"
+	ctx.Meta.Rule = "control strings: (1) a fixed corpus of rare shapes; (2) one ~R / ~:R / ~@R / ~:@R per entry of the word tables; (2b) ~A ~D ~T with every assignment of literal / v / # to their numeric parameters and 0..2 surplus arguments; (3) ~D ~B ~O ~X ~nR with random subsets of mincol, padchar, commachar, comma-interval given literally, by v or by #, all modifier combinations, integers of 1..40 digits incl. 0, powers of ten and two +-1 and the fixnum limits, a few non-integers; (4) ~R words for numbers up to 10^69 with zero and round groups, Roman 1..3999 and the limits; (5) ~A ~S with mincol, colinc, minpad, padchar; (6) sequences of 1..4 directives (all of ~A ~S ~D ~B ~O ~X ~R ~C ~% ~& ~~ ~T ~* ~P ~( ~[ ~{ ~? ~^, blocks nested to depth 2, lists of 0..4 elements, nested lists for ~:{, missing and surplus arguments, the same integer re-read through ~:* ~@* by a second integer directive) with literal text between; after every call the arguments, bound to variables, are printed again and must be unchanged; every control string is run with destination nil, t and a string stream; distinct = distinct (control, arguments)"
 	header := "From C15 Require Import Interp Corr.\nFrom GenC15 Require Import Tables.\nOpen Scope string_scope.\n"
 	footer := "Definition res := Eval vm_compute in check_all gen_tables cases.\nPrint res.\n" +
 		"Definition in_guard := Eval vm_compute in guard_count gen_tables cases.\nPrint in_guard.\n" +
